@@ -2051,7 +2051,7 @@ def split_expr_dst(ir, instr_ir):
 
 def get_mnemo_expr(ir, instr, *args):
     if not instr.name.lower() in mnemo_func_cond:
-        raise ValueError('unknown mnemo %s' % instr)
+        raise NotImplementedError('unknown mnemo %s' % instr)
     cond, mf = mnemo_func_cond[instr.name.lower()]
     instr_ir, extra_ir = mf(ir, instr, *args)
     instr, extra_ir = add_condition_expr(ir, instr, cond, instr_ir, extra_ir)
